@@ -25,4 +25,5 @@ for d in (PKG, LINT):
     for fn in sorted(os.listdir(os.path.join(root, d))):
         if fn.endswith(".py"):
             shutil.copy(os.path.join(root, d, fn), os.path.join(dst, fn))
+shutil.copy(os.path.join(root, LINT, "StateMachine.j2119"), os.path.join(VERIF, "sa", "reference", LINT, "StateMachine.j2119"))
 print("functions:", sum(len(v) for v in table.values()), "locals:", sum(len(x) for v in table.values() for x in v.values()))
